@@ -278,8 +278,8 @@ func cmdCheck(args []string) int {
 	}
 	overlayFilter = strings.ToLower(id)
 	start := time.Now()
-	evPath := filepath.Join(verifDir, "evidence", id+".json")
-	os.MkdirAll(filepath.Join(verifDir, "evidence", "replays"), 0o755)
+	evPath := filepath.Join(evidenceDir, id+".json")
+	os.MkdirAll(filepath.Join(evidenceDir, "replays"), 0o755)
 
 	var inconclusive []string
 	ev := &evidence{PropertyID: id, Tier: tier, Seed: seed, Level: "model_checking", Coverage: map[string]interface{}{}, Extra: map[string]interface{}{}}
@@ -578,7 +578,7 @@ func cmdCheck(args []string) int {
 			vr := confirmedVR[gk]
 			rf := replayFile{Property: id, Dir: dir, Harness: vr.v.Harness, Vector: vr.v.Vector, Draws: vr.v.Draws, Msg: vr.v.Msg, Where: vr.v.Where, KnownKey: vr.v.KnownKey, Tier: tier, Native: oc.Status + " " + oc.Msg}
 			h := sha1.Sum([]byte(fmt.Sprint(rf.Harness, rf.Vector)))
-			rpath := filepath.Join(verifDir, "evidence", "replays", fmt.Sprintf("%s-%s-%x.json", id, rf.Harness, h[:4]))
+			rpath := filepath.Join(evidenceDir, "replays", fmt.Sprintf("%s-%s-%x.json", id, rf.Harness, h[:4]))
 			rb, _ := json.MarshalIndent(rf, "", " ")
 			os.WriteFile(rpath, rb, 0o644)
 			if kf, ok := knownByKey[vr.v.KnownKey]; ok && vr.v.KnownKey != "" && kf.Status == "known" {
